@@ -161,24 +161,10 @@ class Run:
             return None
         n_obl = 0
         for pi, pr in enumerate(paths):
-            M = pr.notes.get("M")
-            inputs = dict(M.inputs) if M is not None else {}
             suffix = f"#p{pi}" if len(paths) > 1 else ""
-            meta0 = {"scenario": sname, "params": params, "label": label, "lemma": lemma}
-            for oi, ob in enumerate(pr.obligations):
-                nm = f"{label}/{ob.name}{suffix}"
-                is_can = ob.name in canary or ob.meta.get("canary")
-                meta = dict(meta0, check=ob.name, **{k: v for k, v in ob.meta.items() if _plain(v)})
-                self.tasks.append(solve.Task(nm, ob.hyps, ob.clause, inputs, meta, want_sat=bool(is_can)))
-                n_obl += 1
-            if pr.kind == "raise":
-                e = pr.value
-                tb = traceback.format_tb(e.__traceback__)
-                loc = tb[-1].strip().split("\n")[0] if tb else ""
-                meta = dict(meta0, check="raises-nothing", exception=f"{type(e).__name__}: {e}", where=loc)
-                import z3
-                self.tasks.append(solve.Task(f"{label}/raises-nothing{suffix}", pr.pc, z3.BoolVal(False), inputs, meta))
-                n_obl += 1
+            ts = self._path_tasks(pr, label, sname, params, lemma, canary, suffix)
+            self.tasks.extend(ts)
+            n_obl += len(ts)
         self.scen_rows.append({"label": label, "scenario": sname, "params": _jsonable(params), "paths": len(paths),
                                "obligations": n_obl, "exec_s": round(time.time() - t0, 3), "lemma": lemma})
         if lemma:
@@ -186,6 +172,89 @@ class Run:
         if fallback:
             self.fallbacks[label] = fallback
         return paths
+
+    def _path_tasks(self, pr, label, sname, params, lemma, canary, suffix):
+        import z3
+        out = []
+        M = pr.notes.get("M")
+        inputs = dict(M.inputs) if M is not None else {}
+        meta0 = {"scenario": sname, "params": params, "label": label, "lemma": lemma}
+        for ob in pr.obligations:
+            nm = f"{label}/{ob.name}{suffix}"
+            is_can = ob.name in canary or ob.meta.get("canary")
+            meta = dict(meta0, check=ob.name, **{k: v for k, v in ob.meta.items() if _plain(v)})
+            out.append(solve.Task(nm, ob.hyps, ob.clause, inputs, meta, want_sat=bool(is_can)))
+        if pr.kind == "raise":
+            e = pr.value
+            tb = traceback.format_tb(e.__traceback__)
+            loc = tb[-1].strip().split("\n")[0] if tb else ""
+            meta = dict(meta0, check="raises-nothing", exception=f"{type(e).__name__}: {e}", where=loc)
+            out.append(solve.Task(f"{label}/raises-nothing{suffix}", pr.pc, z3.BoolVal(False), inputs, meta))
+        return out
+
+    def prove_parallel(self, label, scenario, params=None, pkg=None, lemma=False, canary=None, max_paths=100000, fallback=None,
+                       procs=16):
+        """Like prove(), but the path tree is explored by a pool of fork()ed workers: a serial breadth-first phase
+        collects decision prefixes, then each worker explores the subtree below one prefix and discharges its
+        obligations itself (z3 terms cannot cross process boundaries; plain Result records can)."""
+        import multiprocessing as mp
+        params = params or {}
+        pkg = pkg or self.package()
+        canary = canary or set()
+        sname = scenario.__name__
+        t0 = time.time()
+
+        def fn():
+            M = SymMode(pkg)
+            CTX.notes["M"] = M
+            return scenario(M, **params)
+
+        frontier = [[]]
+        n_obl = n_paths = 0
+        timeout_s = self.timeout_s
+        me = self
+
+        def work(dec):
+            try:
+                pr, pending = core.explore_one(fn, dec)
+            except (core.Unsupported, core.Undecided) as e:
+                return ("engine", f"{type(e).__name__}: {e}", [], 0)
+            if pr is None:
+                return ("ok", [], pending, 0)
+            ts = me._path_tasks(pr, label, sname, params, lemma, canary, "#p" + "".join(str(int(d)) for d in pr.decisions))
+            return ("ok", solve.discharge(ts, timeout_s=timeout_s, procs=1), pending, 1)
+
+        global _WORK
+        _WORK = work
+        ctx = mp.get_context("fork")
+        total = 0
+        while frontier:
+            # level-synchronous breadth-first exploration: every path of the current frontier in parallel
+            if len(frontier) < 3:
+                outs = [work(d) for d in frontier]
+            else:
+                with ctx.Pool(min(procs, len(frontier))) as pool:
+                    outs = pool.map(_call_work, frontier, chunksize=1)
+            frontier = []
+            for kind, payload, pending, np_ in outs:
+                if kind == "engine":
+                    self.engine_failures.append((label, payload))
+                    continue
+                self.results.extend(payload)
+                n_obl += len(payload)
+                n_paths += np_
+                frontier.extend(pending)
+            total += len(outs)
+            if total > max_paths:
+                self.engine_failures.append((label, f"Undecided: path budget exceeded ({max_paths})"))
+                break
+        if any(lab == label for lab, _ in self.engine_failures) and fallback:
+            self.fallbacks[label] = fallback
+        self.scen_rows.append({"label": label, "scenario": sname, "params": _jsonable(params), "paths": n_paths,
+                               "obligations": n_obl, "exec_s": round(time.time() - t0, 3), "lemma": lemma, "parallel": True})
+        if fallback:
+            self.fallbacks[label] = fallback
+        return n_paths
 
     def discharge(self):
         t0 = time.time()
@@ -347,6 +416,9 @@ class Run:
             exit_code = 3
         elif unreplaced:
             exit_code = 2
+        if core.PRUNED[0] and not getattr(self, "allow_pruned", False):
+            self.errors.append(f"{core.PRUNED[0]} paths were cut by the re-draw bound in a check that does not expect it")
+            exit_code = exit_code or 3
         if obligations == 0 and not self.bounded and not self.exhaustive:
             self.errors.append("no obligations were generated")
             exit_code = exit_code or 3
@@ -396,6 +468,7 @@ class Run:
             "rewrite_hits": {k: v for k, v in (self.pkg.hits.items() if self.pkg else [])},
             "callee_stubs": sorted(self.stubs_used),
             "callees_inlined": sorted(self.inlined),
+            "paths_pruned_by_redraw_bound": core.PRUNED[0],
             "checker_errors": self.errors,
             "notes": self.notes,
         }
@@ -418,6 +491,13 @@ class Run:
         for lab, why in self.engine_failures:
             print("  engine:", lab, "-", why)
         return exit_code
+
+
+_WORK = None
+
+
+def _call_work(dec):
+    return _WORK(dec)
 
 
 class _Named:
